@@ -11,6 +11,18 @@ CHECKS = {
          "bash 5.2.15 is the reference for 'bash'; statuses limited to {0,1,2,77,255}; programs in listed known-finding classes are counted and skipped", "DESIGN.md §3 C02"),
 }
 
+CHECKS.update({
+ "C03": ("grammar-based property testing (C02 grammar + option toggles, pipelines, substitutions, eval, nounset leaves), differential oracle vs bash 5.2.15",
+         "Generated-program search over the control-flow grammar extended with set -e/-u/pipefail/inherit_errexit/errtrace toggles at arbitrary positions, failing leaves everywhere and unset-parameter expansion leaves, under every initial option combination; last marker before exit and exit status compared with bash. Exploration.",
+         "bash 5.2.15 reference; exit status compared zero/non-zero when bash stops on an unbound variable (5.2 uses 127); ERR-trap firing is not compared here (C16 covers traps)", "DESIGN.md §3 C03"),
+ "C08": ("bounded-exhaustive enumeration + grammar-based property testing against a reference glob matcher (in process), mismatches confirmed against bash; differential testing of shell contexts and pathname expansion",
+         "All patterns up to length 3 (quick) / 5 (thorough) over a 9-symbol alphabet x all subjects up to length 3/4, all short extglob patterns, 20k+ grammar-generated well-formed patterns, each decided by the harness's reference matcher with bash as arbiter; plus case/[[ ]]/${s#p} contexts and pathname expansion on generated trees vs bash. Exhaustive within the stated bounds (evidence marks which layers), exploration beyond.",
+         "reference matcher trusted only where bash agrees (every mismatch re-checked against bash; 1/97 of agreeing pairs cross-checked); LC_ALL=C.utf8; collation-dependent ranges excluded", "DESIGN.md §3 C08"),
+ "C19": ("bounded-exhaustive enumeration + random fragment concatenation, invariant oracle (in process)",
+         "Every line over a 22-symbol metacharacter alphabet up to length 3 (quick) / 5 (thorough) and 10^5-10^6 random concatenations of shell fragments, each with every cursor on a character boundary, checked against the tiling invariant (ordered, contiguous, char-aligned spans covering the line; concatenation reproduces it; no panic). Exhaustive within the length bound, exploration beyond.",
+         "highlighter called on a clone of a default Shell with default builtins; debug assertions on", "DESIGN.md §3 C19"),
+})
+
 NOT_YET = {}
 
 def hooks():
